@@ -5,11 +5,11 @@
    forms sample 1; [twoU_lab] is 2U of the relabelled data (pairs a>b count 2, a=b count 1);
    [count_le]/[count_eq] count labellings by 2U.  Model (Model/Udist.v, Model/GEChoose.v): [choose],
    [tiedA] (memoised A_k recurrence with its three leaves), [untied_p]/[untied_c], [udist_pmf]/[udist_cdf]. *)
-From Coq Require Import List ZArith QArith Qround.
+From Coq Require Import List ZArith QArith Qround Permutation Lia.
 (* the comparator first: its boolean [valid_T] must not shadow the Prop [valid_T] of Proofs/UdistLaws.v *)
 From MM Require Import Check.C02 Proofs.CheckC02.
 From MM Require Import Base.Num Base.GEComb Spec.Ucount Proofs.Ucount Model.GEChoose Model.Udist
-  Proofs.Udist Proofs.UdistTied Proofs.UdistTable Proofs.UdistLaws Proofs.UdistUntied Proofs.UdistCor.
+  Proofs.Udist Proofs.UdistTied Proofs.UdistTable Proofs.UdistLaws Proofs.UdistUntied Proofs.UdistCor Proofs.UtestSym Proofs.UdistSym.
 Import ListNotations.
 Local Open Scope Z_scope.
 
@@ -137,6 +137,60 @@ Theorem C02_mirror : forall {X} (cmp : X -> X -> comparison) z n w,
 Proof. exact @count_eq_mirror. Qed.
 Print Assumptions C02_mirror.
 
+(* The counts depend on the pool only through its tie vector: any two pools (any value types, any
+   comparisons) grouped by the same vector give the same counts; in particular the arrangement of the
+   pooled values is irrelevant *)
+Theorem C02_counts_depend_on_T_only : forall {X Y} (cmp : X -> X -> comparison) (cmp' : Y -> Y -> comparison) Tr z z' n w,
+  grouped cmp Tr z -> grouped cmp' Tr z' ->
+  count_le cmp z n w = count_le cmp' z' n w /\ count_eq cmp z n w = count_eq cmp' z' n w.
+Proof.
+  intros X Y cmp cmp' Tr z z' n w H H'.
+  exact (conj (eq_trans (count_le_cntS cmp Tr z n w H) (eq_sym (count_le_cntS cmp' Tr z' n w H')))
+              (eq_trans (count_eq_massS cmp Tr z n w H) (eq_sym (count_eq_massS cmp' Tr z' n w H')))).
+Qed.
+Print Assumptions C02_counts_depend_on_T_only.
+Theorem C02_pool_order_irrelevant : forall {X} (cmp : X -> X -> comparison) (z z' : list X) n w,
+  Permutation z z' -> count_le cmp z n w = count_le cmp z' n w /\ count_eq cmp z n w = count_eq cmp z' n w.
+Proof. intros X cmp z z' n w H. exact (conj (count_le_perm cmp z z' n w H) (count_eq_perm cmp z z' n w H)). Qed.
+Print Assumptions C02_pool_order_irrelevant.
+(* a tie vector that reads the same in both directions (in particular: no ties) gives a distribution
+   symmetric about n1 n2 / 2 — the fact behind the two-sided p-value of C01 *)
+Theorem C02_symmetric_palindromic : forall {X} (cmp : X -> X -> comparison), (forall a b, cmp b a = CompOpp (cmp a b)) ->
+  forall Tr z n w, grouped cmp Tr z -> rev Tr = Tr -> (n <= length z)%nat ->
+  count_eq cmp z n w = count_eq cmp z n (2 * Z.of_nat n * Z.of_nat (length z - n) - w) /\
+  count_le cmp z n w = C (length z) n - count_le cmp z n (2 * Z.of_nat n * Z.of_nat (length z - n) - w - 1).
+Proof.
+  intros X cmp Ha Tr z n w Hg Hp Hn.
+  exact (conj (count_eq_palin cmp Ha Tr z n w Hg Hp Hn) (count_le_palin cmp Ha Tr z n w Hg Hp Hn)).
+Qed.
+Print Assumptions C02_symmetric_palindromic.
+
+(* The same laws for UDist.PMF itself, with no pool in the statement (grid: u = w/2 with ties, integers without) *)
+Theorem C02_pmf_mirror_tied : forall N1 N2 T, valid_T N1 N2 T -> has_ties T = true -> forall w : Z,
+  (udist_pmf N1 N2 T (w # 2) == udist_pmf N2 N1 T (QN (N1 * N2) - (w # 2)))%Q.
+Proof. exact udist_pmf_mirror_tied. Qed.
+Print Assumptions C02_pmf_mirror_tied.
+Theorem C02_pmf_mirror_untied : forall N1 N2 T, (1 <= N1)%nat -> (1 <= N2)%nat -> has_ties T = false -> forall k : Z,
+  (udist_pmf N1 N2 T (inject_Z k) == udist_pmf N2 N1 T (inject_Z (Z.of_nat (N1 * N2) - k)))%Q.
+Proof. exact udist_pmf_mirror_untied. Qed.
+Print Assumptions C02_pmf_mirror_untied.
+Theorem C02_pmf_sums_to_one_tied : forall N1 N2 T, valid_T N1 N2 T -> has_ties T = true ->
+  (Qsum (map (fun w => udist_pmf N1 N2 T (w # 2)) (zrange 0 (2 * Z.of_nat N1 * Z.of_nat N2))) == 1)%Q.
+Proof. exact udist_pmf_sum_tied. Qed.
+Print Assumptions C02_pmf_sums_to_one_tied.
+Theorem C02_pmf_sums_to_one_untied : forall N1 N2 T, (1 <= N1)%nat -> (1 <= N2)%nat -> has_ties T = false ->
+  (Qsum (map (fun k => udist_pmf N1 N2 T (inject_Z k)) (zrange 0 (Z.of_nat (N1 * N2)))) == 1)%Q.
+Proof. exact udist_pmf_sum_untied. Qed.
+Print Assumptions C02_pmf_sums_to_one_untied.
+Theorem C02_pmf_symmetric_palindromic : forall N1 N2 T, valid_T N1 N2 T -> has_ties T = true -> forall w : Z, rev T = T ->
+  (udist_pmf N1 N2 T (w # 2) == udist_pmf N1 N2 T (QN (N1 * N2) - (w # 2)))%Q.
+Proof. exact udist_pmf_symmetric_palin. Qed.
+Print Assumptions C02_pmf_symmetric_palindromic.
+Theorem C02_pmf_symmetric_untied : forall N1 N2 T, (1 <= N1)%nat -> (1 <= N2)%nat -> has_ties T = false -> forall k : Z,
+  (udist_pmf N1 N2 T (inject_Z k) == udist_pmf N1 N2 T (inject_Z (Z.of_nat (N1 * N2) - k)))%Q.
+Proof. exact udist_pmf_symmetric_untied. Qed.
+Print Assumptions C02_pmf_symmetric_untied.
+
 (* The executable twins the correspondence check runs (whole distribution at once; index 2U with ties,
    index U without) are the same counts *)
 Theorem C02_table_counts_subsets : forall {X} (cmp : X -> X -> comparison) N1 N2 T z w,
@@ -213,6 +267,14 @@ Example C02_untied_example :
   untied_table 3 3 = [1; 1; 2; 3; 3; 3; 3; 2; 1; 1] /\
   Qred (udist_cdf 3 3 [] (7 # 2)) = (7 # 20)%Q /\ Qred (udist_cdf 3 3 [] (13 # 2)) = (4 # 5)%Q.
 Proof. vm_compute. repeat split; reflexivity. Qed.
+(* the hypotheses of the PMF-level laws are satisfiable: a tied palindromic and a tied non-palindromic vector; the
+   mirror law on the latter, evaluated *)
+Example C02_pmf_law_examples :
+  valid_T 3 2 [2; 1; 2]%nat /\ has_ties [2; 1; 2]%nat = true /\ rev [2; 1; 2]%nat = [2; 1; 2]%nat /\
+  valid_T 3 4 [2; 1; 3; 1]%nat /\ has_ties [2; 1; 3; 1]%nat = true /\
+  Qred (udist_pmf 3 4 [2; 1; 3; 1]%nat (5 # 2)) = Qred (udist_pmf 4 3 [2; 1; 3; 1]%nat (QN (3 * 4) - (5 # 2))) /\
+  has_ties [1; 1; 1]%nat = false /\ has_ties [] = false.
+Proof. unfold valid_T. vm_compute. repeat split; try reflexivity; try lia; repeat constructor. Qed.
 
 (* two accepted lines of a real run (harness output on /repo): UDist{2,3,T=[2,1,2]} at u = -0.5, 0, 1.5, 2.25, 3, 6,
    6.5, 7 and UDist{2,2,nil} at u = -1, 0, 1.5, 2, 4, 4.5, 4.75; both parse completely and get verdict ok, so the
